@@ -63,7 +63,7 @@ package ratelimit
 
 // ---- bucket sets ---------------------------------------------------------------------------
 
-//@ pred setOK(tbs *TokenBucketSet) = tbs != nil && tbs.buckets != nil && (forall k int :: in(k, tbs.buckets) ==> bucketOK(tbs.buckets[k]) && allocated(tbs.buckets[k]) && tbs.buckets[k].period == k)
+//@ pred setOK(tbs *TokenBucketSet) = tbs != nil && tbs.buckets != nil && tbs.maxPeriod >= 0 && (forall k int :: in(k, tbs.buckets) ==> bucketOK(tbs.buckets[k]) && allocated(tbs.buckets[k]) && tbs.buckets[k].period == k)
 //@ pred kOf(tb *tokenBucket) = kdiv(lastclock - old(tb.lastRefresh), old(tb.timePerToken))
 //@ pred admits(tb *tokenBucket, tokens int) = tokens <= old(tb.burst) && refillOf(tb, kOf(tb)) >= tokens
 //@ pred debited(tb *tokenBucket, tokens int) = tb.lastConsumed == tokens && tb.availableTokens == refillOf(tb, kOf(tb)) - tokens && tb.lastRefresh == ite(kOf(tb) == 0, old(tb.lastRefresh), lastclock) && tb.timePerToken == old(tb.timePerToken) && tb.burst == old(tb.burst) && tb.period == old(tb.period)
@@ -122,7 +122,7 @@ package ratelimit
 //@   stable m
 
 //@ pred setOf(tl *TokenLimiter, k string) = asref(tl.bucketSets.vval[k], "*TokenBucketSet")
-//@ pred entriesTyped(tl *TokenLimiter) = tl.bucketSets != nil && (forall k string :: tl.bucketSets.vdom[k] ==> tl.bucketSets.vtag[k] == typeid("*TokenBucketSet") && allocated(setOf(tl, k)) && setOf(tl, k) != nil && setOf(tl, k).buckets != nil && allocated(setOf(tl, k).buckets))
+//@ pred entriesTyped(tl *TokenLimiter) = tl.bucketSets != nil && (forall k string :: tl.bucketSets.vdom[k] ==> tl.bucketSets.vtag[k] == typeid("*TokenBucketSet") && allocated(setOf(tl, k)) && setOf(tl, k) != nil && setOf(tl, k).buckets != nil && allocated(setOf(tl, k).buckets) && setOf(tl, k).maxPeriod >= 0)
 //@ pred entriesBucketsOK(tl *TokenLimiter) = forall k string, p int :: tl.bucketSets.vdom[k] && in(p, setOf(tl, k).buckets) ==> bucketOK(setOf(tl, k).buckets[p]) && allocated(setOf(tl, k).buckets[p]) && setOf(tl, k).buckets[p].period == p
 //@ pred disjointSets(tl *TokenLimiter) = forall k1 string, k2 string :: tl.bucketSets.vdom[k1] && tl.bucketSets.vdom[k2] && k1 != k2 ==> setOf(tl, k1) != setOf(tl, k2) && setOf(tl, k1).buckets != setOf(tl, k2).buckets && (forall p int :: in(p, setOf(tl, k1).buckets) && in(p, setOf(tl, k2).buckets) ==> setOf(tl, k1).buckets[p] != setOf(tl, k2).buckets[p])
 
